@@ -84,6 +84,10 @@ HEADER_FIXTURES = ["hq_min", "hq_asym"]
 QUICK_FIXTURES = ["hq_min", "hq_frag", "ld_min", "ld_frag", "hq_fields", "hq_asym", "hq_padaux_payload", "hq_2headers", "hq_level1", "hq_level66", "two_sequences", "hq_tiny_lossless"]
 
 
+def precheck():
+    return dec.verify_fixtures(PROPERTY_ID)
+
+
 def tasks(tier, seed):
     rnd = random.Random(seed)
     idx = dec.fixture_index()
